@@ -158,7 +158,9 @@ def sqrt(a):
 
 
 def tan(a):
-    return div(sin(a), cos(a))
+    # FormaK receives a genuine sympy.tan; the z3 rendering is sin/cos (the engines' convention), so an
+    # implementation that rewrites tan <-> sin/cos is still proved equal
+    return fn("tan", a)
 
 
 def atan(a):
@@ -242,6 +244,8 @@ def diff(e: E, x: str) -> E:
             return mul(exp(a), da)
         if name == "sqrt":
             return div(da, mul(C(2), sqrt(a)))
+        if name == "tan":
+            return mul(add(C(1), mul(tan(a), tan(a))), da)
         if name == "atan":
             return div(da, add(C(1), mul(a, a)))
         if name == "asin":
@@ -336,6 +340,11 @@ def to_z3(e: E, env, denoms=None, domain=None):
         a = to_z3(e.args[1], env, denoms, domain)
         if e.args[0] == "abs":
             return z3.If(a >= 0, a, -a)
+        if e.args[0] == "tan":
+            c = uf("cos")(a)
+            if denoms is not None:
+                denoms.append(c)
+            return uf("sin")(a) / c
         if e.args[0] == "sqrt" and domain is not None:
             domain.append(a >= 0)
         if e.args[0] == "log" and domain is not None:
